@@ -257,7 +257,7 @@ def cover_radius_boundary(ck, prog):
     """split / dist_split keep a point whose distance EQUALS the cover radius in the near set (a `<` would send it to
     the far set, which build_cover_tree drops at the top level: the point would be lost to every query)"""
     rule = "E1-gate"
-    for fn in ("split", "dist_split"):
+    for fn in ("split", "dist_split", "batch_insert"):
         inst = f"CoverTree::{fn} keeps points with d == cover radius in the near set"
         b = prog.bodies.get(f"algorithm::neighbour::cover_tree::CoverTree::<T, F, D>::{fn}")
         if not b:
@@ -308,6 +308,10 @@ def cover_radius_boundary(ck, prog):
                     else:
                         ck.violation(rule, inst, cb.path, b.where(bb), expected="near set iff d < radius or d == radius",
                                      found=f"partition predicate asserts sign(d - radius) in {sorted(guards.ATOMS[rel])} for the near part")
+        if fn == "batch_insert":
+            if found == 0:
+                ck.note(f"{inst}: no comparison of a distance with the cover radius in batch_insert (points taken back differently): no instance")
+            continue
         if found != 1:
             ck.violation(rule, inst, b.path, f"{b.loc[0]}:{b.loc[1]}", expected="one comparison of a distance with the cover radius", found=f"{found}")
 
@@ -469,3 +473,6 @@ def run(ck, prog):
     _run_pre_progress(ck, prog)
     from sa import progress
     progress.run_rule(ck, prog, set(DIMENSION_FILES))
+
+
+EXPLANATION += (' The cover-radius boundary (d == radius stays near) is also checked where batch_insert takes back unconsumed points.')
